@@ -22,6 +22,7 @@ META = {
 }
 META["claim"] += " " + "Also: look-alike hosts with the domain's dot replaced, and caller cookies equal to / contained in jar cookies."
 META["claim"] += " " + "Round 3b: Host-header override to and from the cookie's domain; Set-Cookie data of 5-12 kB per response."
+META["claim"] += " " + 'Round 4: IPv6 literal as cookie domain and target; one custom-header list object passed to every connection of a history (it must come back unchanged).'
 
 DOMAINS = ["x.t", "X.T", ".x.t", "s.x.t", "y.t", "t", None, "::1"]
 PROBES = ["x.t", "X.t", "s.x.t", "ax.t", "y.t", "t", "x-t", "s-x.t", "sxx.t", "[::1]", "[::2]"]
